@@ -89,6 +89,9 @@ class Instantiator:
         df = pl.DataFrame(t["rows"], schema=schema, orient="row")
         if self.backend == "polars":
             tbl = pdt.Table(df, name=name)
+        elif self.backend in ("postgres", "mssql"):
+            import dialects
+            tbl = dialects.table(self.backend, name, t["cols"])
         else:
             import sqlalchemy as sqa
             eng = self.engine_cache.get("engine")
